@@ -221,9 +221,10 @@ def config_lines(o: Opts, cfgd_name: str | None) -> list[str]:
 
 
 def class_source(name: str, fields: list, o: Opts | None, extra_lines: list[str] | None = None,
-                 cfgd_name: str = "CfgD", mixin: bool = True) -> str:
-    """o = None: the option-free twin.  mixin=False: a plain dataclass (compiled by whichever class meets it first)."""
-    src = f"@dataclass(kw_only=True)\nclass {name}" + ("(DataClassDictMixin)" if mixin else "") + ":\n"
+                 cfgd_name: str = "CfgD", mixin: bool = True, base: str | None = None) -> str:
+    """o = None: the option-free twin (also: no Config of its own).  mixin=False: a plain dataclass (compiled by whichever
+    class meets it first).  base: the dataclass it derives from (fields = own fields only)."""
+    src = f"@dataclass(kw_only=True)\nclass {name}" + (f"({base})" if base else ("(DataClassDictMixin)" if mixin else "")) + ":\n"
     lines = [field_line(f, o is None) if isinstance(f, FieldSpec) else f for f in fields] + (extra_lines or [])
     src += ("\n".join(lines) if lines else "    pass") + "\n"
     if o is not None:
@@ -714,13 +715,17 @@ class NCls:
     o: Opts                   # class-level part only (cfgd, cfg, sort, flags, lazy)
     fields: tuple             # of FieldSpec | DcField
     mixin: bool = True        # False: plain @dataclass (with a Config of its own iff o sets anything)
+    parent: int | None = None # derives from that class: the first n_inh fields and (unless own_cfg) o are inherited
+    n_inh: int = 0
+    own_cfg: bool = True
+    cfg_owner: int = -1       # class whose CfgD<id> dialect class o.cfgd refers to
 
 
 LEAF_NESTED = [("optint", "val", "None"), ("int", "val", "1"), ("date", "no", None), ("optdate", "val", "None"),
                ("any", "val", "None"), ("int_none", "val", "None")]
 
 
-def gen_table(rng, unions: bool = True) -> list[NCls]:
+def gen_table(rng, unions: bool = True, inherit: bool = True) -> list[NCls]:
     """class 0 is a mixin root; the others are mixin subclasses, plain dataclasses with a Config, or plain
     dataclasses without any Config; class i only refers to classes j > i"""
     n = rng.randint(2, 5)
@@ -735,10 +740,22 @@ def gen_table(rng, unions: bool = True) -> list[NCls]:
             fon, fba, fdl, fcx = (rng.random() < 0.5 for _ in range(4))
             o = Opts(cfgd=gen_ns(rng, 0.45), cfg=gen_ns(rng, 0.3) or ("U", "U", "U"), sort=rng.random() < 0.3,
                      fon=fon, fba=fba, fdl=fdl, fcx=fcx, lazy=mixin and rng.random() < 0.2, cfg_style=gen_cfg_style(rng))
-        names = rng.sample(NAMES, rng.randint(1, 4))
+        later = list(range(cid + 1, n))
+        parent = rng.choice(later) if (inherit and later and rng.random() < 0.3) else None
+        inherited: tuple = ()
+        own_cfg, cfg_owner = True, cid
+        if parent is not None:
+            pc = table[parent]
+            mixin, inherited = pc.mixin, pc.fields
+            if bare or rng.random() < 0.5:           # no Config of its own: the parent's Config is inherited
+                o, own_cfg, cfg_owner = pc.o, False, pc.cfg_owner
+            else:                                    # own Config; it keeps at least the parent's keyword flags
+                o = replace(o, fon=o.fon or pc.o.fon, fba=o.fba or pc.o.fba, fdl=o.fdl or pc.o.fdl, fcx=o.fcx or pc.o.fcx,
+                            lazy=o.lazy and mixin)
+        taken = {f.name for f in inherited}
+        names = rng.sample([x for x in NAMES if x not in taken], rng.randint(1, 3 if inherited else 4))
         aliases = rng.sample(ALIASES, len(ALIASES))
         fields = []
-        later = list(range(cid + 1, n))
         for i, nm in enumerate(names):
             al = aliases[i] if rng.random() < 0.4 else None
             if later and (rng.random() < 0.55 or (cid == 0 and i == 0)):
@@ -755,12 +772,20 @@ def gen_table(rng, unions: bool = True) -> list[NCls]:
             else:
                 sh, dk, ds = rng.choice(LEAF_NESTED)
                 fields.append(FieldSpec(nm, sh, dk, ds, al, rng.random() < 0.08))
-        table[cid] = NCls(o, tuple(fields), mixin)
+        table[cid] = NCls(o, tuple(inherited) + tuple(fields), mixin, parent, len(inherited), own_cfg, cfg_owner)
     return table
 
 
+def descendants(table, m: int) -> list[int]:
+    out = [m]
+    for cid in range(len(table) - 1, -1, -1):
+        if table[cid].parent in out and cid not in out:
+            out.append(cid)
+    return out
+
+
 def refs(c: NCls) -> set:
-    return {m for f in c.fields if isinstance(f, DcField) for m in f.members}
+    return {m for f in c.fields if isinstance(f, DcField) for m in f.members} | ({c.parent} if c.parent is not None else set())
 
 
 def reachable(table, cid: int) -> set:
@@ -813,16 +838,18 @@ def table_source(table: list[NCls], call, order: list[int]) -> str:
         src += dialect_source("CallD", call)
     for cid in order:
         c = table[cid]
-        if c.o.cfgd is not None:
+        if c.own_cfg and c.o.cfgd is not None:
             src += dialect_source(f"CfgD{cid}", c.o.cfgd)
-        src += class_source(f"C{cid}", [nfield_line(f, False) for f in c.fields], c.o, cfgd_name=f"CfgD{cid}", mixin=c.mixin)
+        src += class_source(f"C{cid}", [nfield_line(f, False) for f in c.fields[c.n_inh:]], c.o if c.own_cfg else None,
+                            cfgd_name=f"CfgD{cid}", mixin=c.mixin, base=f"C{c.parent}" if c.parent is not None else None)
     for cid in order:
         c = table[cid]
-        src += class_source(f"P{cid}", [nfield_line(f, True) for f in c.fields], None, mixin=c.mixin)
+        src += class_source(f"P{cid}", [nfield_line(f, True) for f in c.fields[c.n_inh:]], None, mixin=c.mixin,
+                            base=f"P{c.parent}" if c.parent is not None else None)
     return src
 
 
-def gen_tree(rng, table, cid: int):
+def gen_tree(rng, table, cid: int, subs: bool = True):
     """(cid, [child]) where child = python source of a leaf value | None | (cid, [...]) | [ (cid, [...]), ... ]"""
     ch = []
     for f in table[cid].fields:
@@ -830,14 +857,22 @@ def gen_tree(rng, table, cid: int):
             cands = [v for v in f.sh.values if v != "None" or f.nullable]
             ch.append("None" if (f.nullable and rng.random() < 0.5) else rng.choice(cands))
         elif f.many:
-            ch.append([gen_tree(rng, table, f.members[0]) for _ in range(rng.choice([0, 1, 1, 2]))])
+            ch.append([gen_tree(rng, table, pick_cls(rng, table, f.members[0], subs), subs) for _ in range(rng.choice([0, 1, 1, 2]))])
         elif f.mapping:
-            ch.append({f"k{i}": gen_tree(rng, table, f.members[0]) for i in range(rng.choice([0, 1, 1, 2]))})
+            ch.append({f"k{i}": gen_tree(rng, table, pick_cls(rng, table, f.members[0], subs), subs)
+                       for i in range(rng.choice([0, 1, 1, 2]))})
         elif f.optional and rng.random() < 0.3:
             ch.append("None")
         else:
-            ch.append(gen_tree(rng, table, rng.choice(f.members)))
+            ch.append(gen_tree(rng, table, pick_cls(rng, table, rng.choice(f.members), subs), subs))
     return (cid, ch)
+
+
+def pick_cls(rng, table, m: int, subs: bool) -> int:
+    """the class of the value of a field declared with class m: m itself or (subs) one of its subclasses"""
+    # only for mixin classes: a plain subclass has no method of its own unless some field declares it, so its
+    # instances in a parent-typed field are serialized as the parent (also in the option-free twin)
+    return rng.choice(descendants(table, m)) if subs and table[m].mixin and rng.random() < 0.4 else m
 
 
 def tree_src(table, t, prefix: str) -> str:
@@ -872,7 +907,8 @@ def walk(table, ns, t, inst, plain, members, outer, avail, mode: str, hits: dict
     c = table[cid]
     fl_spec = both_flags(outer, cls_flags(c))
     fl = fl_spec
-    if len(members) > 1:
+    if codec is None:
+        # the generated call names the flags of the DECLARED member (first one whose call the value's class accepts)
         fl_impl = None
         for m in members:
             cand = both_flags(outer, cls_flags(table[m]))
@@ -880,7 +916,7 @@ def walk(table, ns, t, inst, plain, members, outer, avail, mode: str, hits: dict
                 fl_impl = cand
                 break
         if fl_impl != fl_spec:
-            hits["d8b"] = True
+            hits["sub" if cid not in members else "d8b"] = True
             if mode == "kf":
                 fl = fl_impl
     o = replace(c.o, kon=avail[0] if fl[0] else None, kba=avail[1] if fl[1] else None, call=avail[2] if fl[2] else None)
@@ -922,7 +958,7 @@ def walk(table, ns, t, inst, plain, members, outer, avail, mode: str, hits: dict
 
 NESTED_DEFS = COQ_DEFS.split("Definition case_ok")[0] + """
 Definition G a b c d := {| g_on := a; g_ba := b; g_dl := c; g_cx := d |}.
-Definition C mx cfgd cfg srt fl fs := {| c_mixin := mx; c_cfgd := cfgd; c_cfg := cfg; c_sort := srt; c_flags := fl; c_fields := fs |}.
+Definition C mx cfgd cfg srt fl fs par := {| c_mixin := mx; c_cfgd := cfgd; c_cfg := cfg; c_sort := srt; c_flags := fl; c_fields := fs; c_parent := par |}.
 Definition K a b c := {| kw_on := a; kw_ba := b; kw_dl := c |}.
 Definition ncase_ok (c: list cls * (nat * node) * kwv * option pv * bool) : bool :=
   match c with (ct, (root, n), k, expected, py_in_domain) =>
@@ -959,7 +995,8 @@ def coq_table(table, ns, enc) -> str:
                 fs.append(f"({coq_dcfield(f)}, [" + "; ".join(f"{m}%nat" for m in f.members) + "])")
         o = c.o
         out.append(f"(C {coq_bool(c.mixin)} {coq_ns(o.cfgd)} (N {o.cfg[0]} {o.cfg[1]} {o.cfg[2]}) {coq_bool(o.sort)} "
-                   f"(G {coq_bool(o.fon)} {coq_bool(o.fba)} {coq_bool(o.fdl)} {coq_bool(o.fcx)}) {coq_list(fs)})")
+                   f"(G {coq_bool(o.fon)} {coq_bool(o.fba)} {coq_bool(o.fdl)} {coq_bool(o.fcx)}) {coq_list(fs)} "
+                   + ("None" if c.parent is None else f"(Some {c.parent}%nat)") + ")")
     return coq_list(out)
 
 
@@ -1035,7 +1072,8 @@ def eval_nested(ctx: vlib.Ctx, table, order, src, ns, rid: int, t, kon, kba, rca
             h2: dict = {}
             predicted = walk(table, ns, t, inst, plain, (rid,), ALL_FLAGS, avail, "kf", h2)
             if typed(predicted) == typed(observed):
-                kind = "union-member-flags" if hits.get("d8b") else "call-dialect-vs-flag-defaults"
+                kind = ("subclass-instance-flags" if hits.get("sub") else
+                        "union-member-flags" if hits.get("d8b") else "call-dialect-vs-flag-defaults")
         ctx.fail(f"nested {rep['instance']}.to_dict({kwargs_src(ro)}) = {observed!r}, hereditary projection of the plain "
                  f"output is {expected!r}"[:500], rep, {"kind": kind, "entry": stream})
     ctx.hist("form", "nested-kf-zone" if hits else "nested-in-domain")
@@ -1080,7 +1118,7 @@ def run_codec_nested(ctx: vlib.Ctx, ccases: list[str], cinfo: list):
         src = table_source(table, None, order) + (dialect_source("DefD", dd) if dd is not None else "")
         ns = load(src)
         for rid in rng.sample(range(len(table)), min(2, len(table))):
-            t = gen_tree(rng, table, rid)
+            t = gen_tree(rng, table, rid, subs=False)
             use_json = rng.random() < 0.3
             rep = {"kind_of_case": "codec-nested", "source": src, "cls": f"C{rid}", "twin": f"P{rid}",
                    "instance": tree_src(table, t, "C"), "twin_instance": tree_src(table, t, "P"),
@@ -1359,7 +1397,7 @@ def run(ctx: vlib.Ctx):
     ctx.theorems("props/C08_kernel_K18.vo", ["K18_bookkeeping", "K18_use_kwargs"], kernels=["K18", "K8"])
     ctx.theorems("props/C08_project.vo", thm)
     ctx.theorems("props/C08_fix.vo", ["C08_project_fixed_full"])
-    ctx.theorems("props/C08_nested.vo", ["C08_nested_partial", "C08_union_flags_refuted", "C08_forwarded_exactly", "C08_no_leak",
+    ctx.theorems("props/C08_nested.vo", ["C08_nested_partial", "C08_union_flags_refuted", "C08_subclass_flags_refuted", "C08_forwarded_exactly", "C08_no_leak",
                                             "C08_option_free_is_plain", "C08_list_elementwise", "C08_dict_elementwise",
                                             "C08_codec_partial", "C08_codec_obj", "C08_codec_no_leak"])
 
